@@ -45,6 +45,10 @@ def reply_mix(ctx, cfg, rounds=1, on_reply=None, tcp=True):
             for fl in (SYN, SYN | ECE, SYN | CWR, SYN | PSH, SYN | URG, SYN | PSH | URG | ECE):
                 emit("syn", e.tcp(gen.rnd_port(rng), gen.rnd_port(rng), rng.choice([0, 1, 0xFFFFFFFF, rng.getrandbits(32)]), rng.getrandbits(32), fl))
             emit("finack", e.tcp(gen.rnd_port(rng), gen.rnd_port(rng), rng.choice([0xFFFFFFFF, rng.getrandbits(32)]), rng.getrandbits(32), FIN | ACK))
+            # a peer that uses the responder's own MAC, or a group address, as Ethernet source
+            odd = pkt.Endp(rng.choice([cfg.mac, pkt.BCAST, b"\x01\x00\x5e\x00\x00\x01"]), e.smac, e.cip, e.sip)
+            emit("echo", odd.echo(rng.getrandbits(16), 1, b"odd-source"))
+            emit("syn", odd.tcp(gen.rnd_port(rng), gen.rnd_port(rng), rng.getrandbits(32), 0, SYN))
             apps = gen.app_requests(rng)
             for name, u, t in apps:
                 e = gen.endp(rng, cfg, v6)
